@@ -23,6 +23,15 @@ def atoms(s: TStr) -> List[Any]:
             out.extend(p.text)
         elif isinstance(p, CommentS):
             out.append('\n')
+        elif isinstance(p, FqnS) and isinstance(p.ns, tuple) and p.ns and p.ns[0] == 'nsids' and \
+                (p.root == 'dotted' or (getattr(p.root, 'op', None) == 'const' and p.root.args and isinstance(p.root.args[0], bool))):
+            # a name that is fully known (built from a constant, e.g. fqn_t('dzn.pump')): the same text as if it had been
+            # written out in the template
+            if p.root == 'dotted':
+                out.extend('.'.join(p.ns[1]))
+            else:
+                txt = '::'.join(p.ns[1])
+                out.extend(('::' + txt) if p.root.args[0] and txt else txt)
         else:
             out.append(p)
     return out
